@@ -6,7 +6,7 @@ export GOFLAGS=-mod=mod GOPROXY=off GOSUMDB=off GOTOOLCHAIN=local
 tag=$1; pid=$2; demo=$3; shift 3
 mkdir -p /tmp/vs_$pid
 rsync -a --delete --exclude .git --exclude 'work/alt_*' --exclude 'work/gocache' --exclude 'work/C[0-9]*' --exclude 'work/logs' ${VS_BASE:-/tmp/vs_base}/ /tmp/vs_$pid/
-for i in "$@"; do
+for i in "$@"; do [ -f $demo/change$i.diff ] || continue;
   VERIF_REGEN=1 VERIF_DIR=/tmp/vs_$pid SEED_TAG=$tag python3 /verif/tools/seed.py $pid $demo $i ${CHECKS:-$pid} > /tmp/seedres_${pid}_${tag}$i.json 2>&1
   python3 - <<PY
 import json
